@@ -274,12 +274,15 @@ func TypesEqual(a, b Type) bool {
 		if !ok {
 			return false
 		}
-		if len(ta.Cases) != len(tb.Cases) {
+		// `int?*` is a vector whose single case is the optional, while the expanded
+		// `!vector {items: [null, int]}` carries both cases on the vector itself
+		casesA, casesB := itemCases(ta), itemCases(tb)
+		if len(casesA) != len(casesB) {
 			return false
 		}
 
-		for i := 0; i < len(ta.Cases); i++ {
-			if !TypesEqual(ta.Cases[i].Type, tb.Cases[i].Type) {
+		for i := 0; i < len(casesA); i++ {
+			if !TypesEqual(casesA[i].Type, casesB[i].Type) {
 				return false
 			}
 		}
@@ -360,6 +363,17 @@ func TypesEqual(a, b Type) bool {
 	default:
 		panic(fmt.Sprintf("unexpected type %T", ta))
 	}
+}
+
+// The cases of the items of a vector, array, map or stream (or of the type itself
+// when it has no dimensionality), independent of how the YAML spelled the nesting.
+func itemCases(t *GeneralizedType) TypeCases {
+	if t.Dimensionality != nil && len(t.Cases) == 1 {
+		if inner, ok := t.Cases[0].Type.(*GeneralizedType); ok && inner.Dimensionality == nil {
+			return inner.Cases
+		}
+	}
+	return t.Cases
 }
 
 func ExpressionsEqual(a, b Expression) bool {
